@@ -43,14 +43,20 @@ def _env():
     return e
 
 
+CPPFLAGS = "-D%s -DDEBUG_LOCKORDER" % GUARD
+
+
 def configure(flavour):
+    """(Re)configure the flavour's cmake tree when it does not exist or was configured with other flags."""
     bdir = os.path.join(BUILD, flavour)
-    if os.path.exists(os.path.join(bdir, "build.ninja")):
+    sig = "%s|%s" % (SAN[flavour], CPPFLAGS)
+    sigfile = os.path.join(bdir, "verif_flags.sig")
+    if os.path.exists(os.path.join(bdir, "build.ninja")) and os.path.exists(sigfile) and open(sigfile).read() == sig:
         return
     os.makedirs(bdir, exist_ok=True)
     cmd = ["cmake", "-S", REPO, "-B", bdir, "-G", "Ninja",
            "-DSANITIZERS=" + SAN[flavour],
-           "-DAPPEND_CPPFLAGS=-D%s -DABORT_ON_FAILED_ASSUME -DDEBUG_LOCKORDER" % GUARD,
+           "-DAPPEND_CPPFLAGS=" + CPPFLAGS,
            "-DAPPEND_CXXFLAGS=-fno-sanitize-recover=all -fno-omit-frame-pointer",
            "-DCMAKE_BUILD_TYPE=RelWithDebInfo",
            "-DCMAKE_CXX_FLAGS_RELWITHDEBINFO=-O1 -g1", "-DCMAKE_C_FLAGS_RELWITHDEBINFO=-O1 -g1",
@@ -59,6 +65,8 @@ def configure(flavour):
     rc, out = _run(cmd, log=os.path.join(BUILD, flavour + ".configure.log"), env=_env())
     if rc != 0:
         raise BuildError("cmake configure failed for %s:\n%s" % (flavour, out[-3000:]))
+    with open(sigfile, "w") as f:
+        f.write(sig)
 
 
 def _dev():
